@@ -392,6 +392,12 @@ class Tracer:
                 if rec and rec in F.records and not F.records[rec].get("trivially_copyable", True):
                     # object with its own Write(Stream::Writer&): handled by the caller through inlining
                     return [["obj", rec.split("::")[-1], path]]
+                if not rec and a[0] == "var":
+                    # a scalar hoisted into a local that only names it (`const uint32_t n = size(); Write(n)`) is that value
+                    ax = fn.xterm(args[0])
+                    if ax != a:
+                        a = ax
+                        path = self.npath(fn, a, env, vt)
                 nm = rec.split("::")[-1] if rec else INTNAMES.get((t0.get("ct") or "").replace("const ", ""), t0.get("ct"))
                 if rec:
                     nm = "::".join(rec.split("::")[-2:]) if rec.count("::") > 1 and rec.split("::")[-2][0].isupper() else rec.split("::")[-1]
@@ -461,6 +467,9 @@ class Tracer:
 def leaf(path):
     if path is None:
         return None
+    if path.startswith("size(") and path.endswith(")") and path.count("(") == 1:
+        inner = leaf(path[5:-1])
+        return "size(%s)" % inner if inner is not None else None
     if path.startswith("tmp:") or path.startswith("(") or path.startswith("strlit"):
         return None
     parts = path.replace("[]", "").split(".")
